@@ -50,6 +50,10 @@ def shard_main(pid, specfile, outfile):
         os.environ['TZ'] = zone
         time.tzset()
     acc.sets.setdefault('local_time_zones_of_the_shards', set()).add(zone or 'UTC')
+    if int(spec.get('shard', 0)) % 4 == 3:
+        import calendar
+        calendar.setfirstweekday(calendar.SUNDAY)      # another process-wide setting of the host program that no property depends on
+        acc.sets.setdefault('shards_with_calendar_first_weekday', set()).add('SUNDAY')
     try:
         mod.run_shard(spec, acc)
     except Exception:
